@@ -127,18 +127,22 @@ func (g *sgen) user(path string, depth int) string {
 	}
 	add("Tags", "Ls["+strings.Join(tags, ",")+"]")
 	var anys []string
-	for i, n := 0, g.r.Range(0, 2); i < n; i++ {
-		switch g.r.Intn(3) {
+	for i, n := 0, g.r.Range(0, 3); i < n; i++ {
+		k := g.r.Intn(3)
+		if i == 0 && g.r.Chance(60) {
+			k = 2
+		}
+		switch k {
 		case 0:
 			anys = append(anys, "i"+strconv.Itoa(i+7))
 		case 1:
 			anys = append(anys, "s"+shx(fmt.Sprintf("%s.Any[%d]", path, i)))
 		default:
-			anys = append(anys, g.pet(fmt.Sprintf("%s.Any[%d]", path, i), 0))
+			anys = append(anys, g.pet(fmt.Sprintf("%s.Any[%d]", path, i), depth-1))
 		}
 	}
 	add("Any", "La["+strings.Join(anys, ",")+"]")
-	add("M", "M["+shx("k")+":s"+shx(path+".M[k]")+","+shx("n")+":i"+strconv.Itoa(g.r.Range(0, 9))+"]")
+	add("M", "M["+shx("k")+":s"+shx(path+".M[k]")+","+shx("n")+":i"+strconv.Itoa(g.r.Range(0, 9))+","+shx("p")+":"+g.pet(path+".M[p]", depth-1)+"]")
 	add("secret", "s"+shx("SECRET"))
 	add("hidden", "Q"+shx("*main.RgPet"))
 	return "S" + shx("main.RgUser") + "{" + strings.Join(fs, ",") + "}"
@@ -148,7 +152,7 @@ func (g *sgen) pet(path string, depth int) string {
 	var fs []string
 	add := func(n, v string) { fs = append(fs, shx(n)+":"+v) }
 	add("Kind", "s"+shx(path+".Kind"))
-	if depth > 0 && g.r.Chance(40) {
+	if depth > 0 && g.r.Chance(55) {
 		add("Owner", "P"+shx("*main.RgUser")+"&"+g.user(path+".Owner", depth-1))
 	} else {
 		add("Owner", "Q"+shx("*main.RgUser"))
@@ -238,7 +242,7 @@ func (g *sgen) tmpl() string {
 	for i, n := 0, g.r.Range(1, 3); i < n; i++ {
 		root := g.root()
 		p, ty := g.path(root, 4, 8)
-		k := g.r.Intn(16)
+		k := g.r.Intn(19)
 		if root != "u" && root != "uv" && k >= 7 && k != 9 && k != 13 && g.r.Chance(85) {
 			// the fixed member suffixes below are fields of RgUser
 			root = Pick(g.r, []string{"u", "uv"})
@@ -298,8 +302,21 @@ func (g *sgen) tmpl() string {
 			sb.WriteString("<%= !" + p + " %>")
 		case 14:
 			sb.WriteString("<%= for (i, e) in " + root + Pick(g.r, []string{".Any", ".Boss.Any", ".Tags"}) + " { %><%= i %>=<%= e %>,<% } %>")
-		default:
+		case 15:
 			sb.WriteString("<%= if (" + p + " && " + root + ".Ok) { %>A<% } else if (" + root + ".Boss) { %>B<% } %>")
+		case 18:
+			// a tail that itself indexes with a loop variable: evaluated again on every iteration
+			q := root + Pick(g.r, []string{".Any[0]", ".M[\"p\"]", ".Any[1]"})
+			sb.WriteString("<%= for (j) in range(0, " + Pick(g.r, []string{"0", "1", "2"}) + ") { %><%= " + q + ".Owner." + Pick(g.r, []string{"Tags[j]", "Tags[j]", "Any[j]", "M[\"k\"]"}) + " %>,<% } %>")
+		default:
+			// index-then-member: the element is re-bound under the indexed expression's name and the tail evaluated
+			q := root + Pick(g.r, []string{".Any", ".Any", ".Any", ".M", ".M", ".Boss.Any", ".Tags", ".Pet.Owner.Any"})
+			ix := Pick(g.r, []string{"0", "0", "1", "2", "u.Age - u.Age"})
+			if strings.HasSuffix(q, ".M") {
+				ix = Pick(g.r, []string{`"p"`, `"p"`, `"k"`, `"zz"`, `"n"`})
+			}
+			tail := Pick(g.r, []string{"Kind", "Kind", "Owner", "Owner.Name", "Kind.x", "legs", "Nope", "Name"})
+			sb.WriteString("{<%= " + q + "[" + ix + "]." + tail + " %>}")
 		}
 	}
 	return sb.String()
@@ -307,18 +324,18 @@ func (g *sgen) tmpl() string {
 
 func genStructCase(r *Rng) (env, tmpl string) {
 	g := &sgen{r: r}
-	u := g.user("u", 3)
+	u := g.user("u", 2)
 	env = rgEnv + ";" + hx("u") + "=P" + shx("*main.RgUser") + "&" + u +
-		";" + hx("uv") + "=" + g.user("uv", 2) +
+		";" + hx("uv") + "=" + g.user("uv", 1) +
 		";" + hx("nu") + "=Q" + shx("*main.RgUser") +
-		";" + hx("pp") + "=P" + shx("*main.RgPet") + "&" + g.pet("pp", 2)
+		";" + hx("pp") + "=P" + shx("*main.RgPet") + "&" + g.pet("pp", 1)
 	return env, g.tmpl()
 }
 
 func init() {
 	corrStreams["render-struct"] = func(cfg Config, emit func(string)) {
 		r := NewRng(cfg.Seed).Fork(23)
-		n := cfg.N(6000, 100000)
+		n := cfg.N(6000, 60000)
 		for i := 0; i < n; i++ {
 			env, tmpl := genStructCase(r)
 			emit("render " + env + " " + hx(tmpl) + " -")
